@@ -2,7 +2,7 @@
 
 PROP = dict(
     module="JadeModel.Props.C03All", ns="Jade.C03",
-    required=["C03_rows_equal_reference", "C03_classification", "C03_schedule_independent", "C03_rows_agree",
+    required=["C03_multinode_rows_eq_manager", "C03_multinode_row_at_most_once", "C03_multinode_one_row_per_job", "C03_multinode_worker_records_nothing", "C03_rows_equal_reference", "C03_classification", "C03_schedule_independent", "C03_rows_agree",
               "C03_finished_row_real", "C03_rows_stay", "C03_complete_once", "C03_queue_rows_eq_ref",
               "C03_queue_independent_of_schedule", "C03_local_equals_hpc", "C03_queue_one_row_per_job", "C03_queue_drains", "C03_summary_tally",
               "C03_complete_no_missing", "C03_one_row_per_job", "C03_exactly_one_entry_per_job", "C03_complete_runs_agree",
@@ -23,7 +23,7 @@ PROP = dict(
                "(C03_exactly_one_entry_per_job; Live0-Live5 invariants + one-row-per-job invariants PlainA-C); two complete runs of "
                "the same jobs under any batching/limits/schedules have the same results. Duplicates need an exception inside a "
                "submitter round (C03_duplicate_needs_exception). Not carried by a theorem: that a run REACHES completion "
-               "(termination; oracle on real executions + C05 round progress + C07 loop termination).",
+               "(termination; oracle on real executions + C05 round progress + C07 loop termination). (5) MULTI-NODE ALLOCATIONS (hpc.nodes >= 2; srun starts run-jobs on every node): for any number of nodes the batch's results file receives exactly the rows of the manager node's queue (node 0, from the generated am_i_manager / _complete / cancel guards), so (2) holds for an allocation of any size (C03_multinode_*).",
     level_note="Tied to the code by history replay of real multi-process executions (plain/busy/local modes: real submit-jobs, "
                "run-jobs, try-submit-jobs entry points under the deterministic scheduler), the queue and tally correspondence "
                "suites and generated predicates. Direct oracle (independent of Lean): results.json of every completed real run "
